@@ -300,7 +300,10 @@ def oracle_c05(h):
         us = [0] * h.shards
         for k in find:
             us[h.shard_of(k)] += ver[cur[k]][1]
-        if name in ("ins", "resize", "evict_all", "flush"):
+        if name == "flush" and (int(d["usage"]) != 0 or int(d["entries"]) != 0 or find):
+            # the offload at close takes every resident record, referenced or not, whatever it weighs
+            return (n, f"flush() left entries resident: usage {d['usage']}, entries {d['entries']}, findable {sorted(find)}")
+        if name in ("ins", "resize", "evict_all"):
             victims = [(int(k), v) for e, k, v in evs(d) if e == "E"]
             for s in range(h.shards):
                 capS = Hist.cap_for(total_cap, h.shards, s)
@@ -413,7 +416,7 @@ def oracle_c18(h):
         if name == "ins":
             ver[kv["v"]] = (int(kv["k"]), int(kv["w"]), kv["ph"] == "1"); hv[kv["h"]] = kv["v"]
         for e, k, v in evs(d):
-            if lru and e == "E" and v in pin and name in ("ins", "resize", "evict_all", "flush"):
+            if lru and e == "E" and v in pin and name in ("ins", "resize", "evict_all"):
                 return (n, f"LRU evicted {k}:{v}, which was looked up and is still held")
             if cur.get(int(k)) == v:
                 del cur[int(k)]
